@@ -1,6 +1,7 @@
 package schecks
 
 import (
+	"encoding/json"
 	"fmt"
 	"reflect"
 	"sort"
@@ -406,6 +407,41 @@ func C01(tier string) int {
 			}
 		}
 	}
+	// F1f: literal boundaries - for every property with a literal kind in its range (on the first type that has
+	// it) every value of a boundary list for that kind: extreme instants and zone offsets, floats with many
+	// significant digits / beyond 2^24 / tiny / huge, large counts, long and escape-laden strings
+	boundary := map[string][]interface{}{
+		"xsd:dateTime":           {"0001-01-01T00:00:00Z", "9999-12-31T23:59:59Z", "1970-01-01T00:00:00Z", "2016-02-29T12:00:00-12:00", "2020-12-31T23:59:59+14:00", "1969-12-31T23:59:59Z"},
+		"xsd:float":              {52.521918, float64(123456789), float64(16777217), 1e-7, 0.1, 1e21, -1e-10, 1.7976931348623157e308, 5e-324, -0.000123456789012345, 3.141592653589793},
+		"xsd:nonNegativeInteger": {float64(255), float64(65536), float64(2147483648), float64(4294967296), float64(9007199254740991)},
+		"xsd:duration":           {"PT59S", "PT23H59M59S", "P11M", "P29D", "-PT1S", "P100Y"},
+		"xsd:string":             {strings.Repeat("long ", 4000), `line\nbreak\ttab \u0000 \u2028 \ud83d\ude00 \u00e9 <>&`, " leading and trailing ", "null", "true", "123", "{}", "[]"},
+	}
+	for _, pk := range props {
+		for _, tk := range topTypes {
+			if !o.HasProp(tk, pk) {
+				continue
+			}
+			p := o.Props[pk]
+			for _, l := range p.RangeLits {
+				for _, bv := range boundary[l] {
+					if sv, ok := bv.(string); ok && l == "xsd:string" {
+						var dec string
+						if json.Unmarshal([]byte("\""+sv+"\""), &dec) == nil {
+							bv = dec // the escapes above are JSON escapes
+						}
+						// a property that also admits numbers / booleans / IRIs may read such a string as one of those
+						if len(p.RangeLits) > 1 && (dec == "true" || dec == "123" || dec == "null") {
+							continue
+						}
+					}
+					d := M{"type": o.Types[tk].Name, "id": "https://x.example/doc", p.Name: bv}
+					add("canonical|literal-boundary|"+l, withContext(o, d, tk), true)
+				}
+			}
+			break
+		}
+	}
 	// F1e: IRIs of less usual but URL-normal shape (explicit port, IPv6 literal, query, fragment, userinfo,
 	// percent-escape, punycode host, no path) as the value of every property (on the first type that has it)
 	// and as the document's id
@@ -738,7 +774,7 @@ func C01(tier string) int {
 	nc("empty-string-members", note("content", "", "summary", ""))
 
 	// ---- run ----
-	res.Rule = fmt.Sprintf("documents derived from the ontology grammar: every (type, property, kind in range closure + IRI) x {scalar, list of 2, mixed list <=4, language map} (canonical), nesting depth 2-3 through object/attachment/tag/inReplyTo for every type, unknown members from a 10-value alphabet under 3 key spellings at top level and nested, every (type, name of a property the type does not have) as a member (top level; every 16th nested), lists of 2-3 same-kind elements of which exactly one (each position) nests a value of another vocabulary, IRIs of 12 less usual URL-normal shapes (port, IPv6 literal, query, fragment, userinfo, percent-escape, punycode, no path, dot segments, empty query) as the value of every property and as ids, lists of 5, 8, 16, 17 and 33 IRIs / embedded objects / both in turn in 8 properties, every list of 2-4 elements over one element per vocabulary (x 5 carrying properties), every type under an @context that names more than it uses (all shipped vocabularies / an unknown extension URL / an inline term map), and %d accepted-but-non-canonical shapes; %d documents in total; oracle: (a) canonical: encode(decode(d)) JSON-equal to d with @context compared as a set that must equal the vocabularies the oracle says the document uses; (b) no member lost except nested @context / null for a known property, natural-language members modulo the Map spelling; (c) a second round trip changes nothing unless the document holds such a null or an array directly inside an array; non-trivial = documents the decoder accepted, distinct by (family, type, member names)", 22+6*10+len(o.Vocabs), len(cases))
+	res.Rule = fmt.Sprintf("documents derived from the ontology grammar: every (type, property, kind in range closure + IRI) x {scalar, list of 2, mixed list <=4, language map} (canonical), nesting depth 2-3 through object/attachment/tag/inReplyTo for every type, unknown members from a 10-value alphabet under 3 key spellings at top level and nested, every (type, name of a property the type does not have) as a member (top level; every 16th nested), lists of 2-3 same-kind elements of which exactly one (each position) nests a value of another vocabulary, literal boundaries for every property with a literal kind (extreme instants and offsets, floats with many significant digits / beyond 2^24 / tiny / huge, large counts, long and escape-laden strings), IRIs of 12 less usual URL-normal shapes (port, IPv6 literal, query, fragment, userinfo, percent-escape, punycode, no path, dot segments, empty query) as the value of every property and as ids, lists of 5, 8, 16, 17 and 33 IRIs / embedded objects / both in turn in 8 properties, every list of 2-4 elements over one element per vocabulary (x 5 carrying properties), every type under an @context that names more than it uses (all shipped vocabularies / an unknown extension URL / an inline term map), and %d accepted-but-non-canonical shapes; %d documents in total; oracle: (a) canonical: encode(decode(d)) JSON-equal to d with @context compared as a set that must equal the vocabularies the oracle says the document uses; (b) no member lost except nested @context / null for a known property, natural-language members modulo the Map spelling; (c) a second round trip changes nothing unless the document holds such a null or an array directly inside an array; non-trivial = documents the decoder accepted, distinct by (family, type, member names)", 22+6*10+len(o.Vocabs), len(cases))
 	var mu sync.Mutex
 	chunk := 4000
 	par((len(cases)+chunk-1)/chunk, func(ci int) {
